@@ -262,6 +262,15 @@ class Domain:
             new_domain.set_volume(self._user_volume.partially_evaluate(**data))
         return new_domain
 
+    def _coordinates_outside_space(self, points):
+        """The coordinates of points that do not belong to the space of this domain
+        (e.g. those of the partner in a product domain).
+        """
+        other = [vname for vname in points.space.keys() if vname not in self.space.keys()]
+        if len(other) == 0:
+            return Points.empty()
+        return points[:, other]
+
     def len_of_params(self, params):
         """Finds the number of params, for which points should be sampled."""
         num_of_params = 1
